@@ -1,6 +1,9 @@
 (* TreeProofs.v — proofs about Model/Tree.v: an unedited as-parsed tree is written as read,
-   format is idempotent (text and tree), an edit is local, other leaves are untouched, and the
-   file writer's block structure.  Coq stdlib only, no axioms. *)
+   format is idempotent (text and tree), an edit is local, a sequence of edits changes exactly the named
+   leaves, an observation between edits does not matter, cards that are not edited are written verbatim,
+   a file that a lossless parser reads back is a fixed point, the cell parameter loop never fuses a
+   parameter with what precedes it, the per-particle importances are independent, and the file writer's
+   block structure.  Coq stdlib only, no axioms. *)
 From Coq Require Import List String Ascii Arith Bool Lia.
 From MPV Require Import Model.Wire Model.Tree.
 Import ListNotations.
@@ -34,9 +37,11 @@ Proof. induction l as [|x r IH]; [reflexivity|]. rewrite concat_cons, IH. reflex
 
 Section NodeInd.
   Variable Pn : node -> Prop.
-  Hypothesis HV : forall tok pad np hv ed, Pn (NV tok pad np hv ed).
+  Hypothesis HV : forall tok pad np hv ed vl, Pn (NV tok pad np hv ed vl).
   Hypothesis HP : forall t, Pn (NP t).
   Hypothesis HO : forall t, Pn (NO t).
+  Hypothesis HK : forall t, Pn (NK t).
+  Hypothesis HT : forall up o ps, Pn (NT up o ps).
   Hypothesis HS : forall cs, Forall Pn cs -> Pn (NS cs).
   Hypothesis HL : forall cs, Forall Pn cs -> Pn (NL cs).
   Hypothesis HC : forall cs, Forall Pn cs -> Pn (NC cs).
@@ -48,9 +53,11 @@ Section NodeInd.
                  | x :: r => Forall_cons x (node_ind' x) (all r)
                  end in
     match n with
-    | NV tok pad np hv ed => HV tok pad np hv ed
+    | NV tok pad np hv ed vl => HV tok pad np hv ed vl
     | NP t => HP t
     | NO t => HO t
+    | NK t => HK t
+    | NT up o ps => HT up o ps
     | NS cs => HS cs (all cs)
     | NL cs => HL cs (all cs)
     | NC cs => HC cs (all cs)
@@ -60,13 +67,15 @@ End NodeInd.
 (* ------------------------------------------------------------------ *)
 (* top-level versions of format's local loops *)
 
+Definition is_nil {A} (l : list A) : bool := match l with [] => true | _ => false end.
+
 Fixpoint goS (l : list node) : string * list node :=
   match l with
   | [] => ("", [])
   | x :: r =>
       let (sr, r') := goS r in
       match x with
-      | NV _ _ _ false _ => (sr, x :: r')
+      | NV _ _ _ false _ _ => (sr, x :: r')
       | _ => let (sx, x') := format x in (sx ++ sr, x' :: r')
       end
   end.
@@ -77,11 +86,13 @@ Fixpoint goL (l : list node) : string * list node :=
   | x :: r =>
       let (sr, r') := goL r in
       match x with
-      | NV tok pad np hv ed =>
+      | NV _ _ _ _ _ _ =>
           match padfix x (hd_error r) with
-          | NV tok1 pad1 np1 hv1 ed1 as x1 => (fmt_leaf tok1 pad1 ed1 ++ sr, x1 :: r')
+          | NV tok1 pad1 np1 hv1 ed1 vl1 =>
+              let (sx, x') := fmt_V tok1 pad1 np1 hv1 ed1 vl1 in (sx ++ sr, x' :: r')
           | x1 => (sr, x1 :: r')
           end
+      | NK t => (t ++ shortcut_sep t (match r with [] => true | _ => false end) ++ sr, x :: r')
       | _ => let (sx, x') := format x in (sx ++ sr, x' :: r')
       end
   end.
@@ -101,12 +112,17 @@ Lemma format_NL_go : forall cs, format (NL cs) = let (s, cs') := goL cs in (s, N
 Proof. reflexivity. Qed.
 Lemma format_NC_go : forall cs, format (NC cs) = let (s, cs') := goC cs in (s, NC cs').
 Proof. reflexivity. Qed.
-Lemma format_NV : forall tok pad np hv ed,
-  format (NV tok pad np hv ed) = (fmt_leaf tok pad ed, NV tok pad np hv ed).
+Lemma format_NV : forall tok pad np hv ed vl,
+  format (NV tok pad np hv ed vl) = fmt_V tok pad np hv ed vl.
 Proof. reflexivity. Qed.
-Lemma format_NP : forall t, format (NP t) = (t, NP t).
+Lemma format_NP : forall t, format (NP t) = (pad_text t, NP t).
 Proof. reflexivity. Qed.
 Lemma format_NO : forall t, format (NO t) = (t, NO t).
+Proof. reflexivity. Qed.
+Lemma format_NK : forall t, format (NK t) = (t, NK t).
+Proof. reflexivity. Qed.
+Lemma format_NT : forall up o ps,
+  format (NT up o ps) = (particles_text up (particles_sorted o ps), NT up (particles_sorted o ps) ps).
 Proof. reflexivity. Qed.
 
 Arguments format : simpl never.
@@ -114,49 +130,55 @@ Arguments format : simpl never.
 (* ------------------------------------------------------------------ *)
 (* per-child contributions: text and tree *)
 
-Definition is_V (n : node) : bool := match n with NV _ _ _ _ _ => true | _ => false end.
+Definition is_V (n : node) : bool := match n with NV _ _ _ _ _ _ => true | _ => false end.
+Definition is_K (n : node) : bool := match n with NK _ => true | _ => false end.
 
 (* SyntaxNode *)
 Definition ctrS (x : node) : string :=
-  match x with NV _ _ _ false _ => "" | _ => fst (format x) end.
+  match x with NV _ _ _ false _ _ => "" | _ => fst (format x) end.
 Definition stS (x : node) : node :=
-  match x with NV _ _ _ false _ => x | _ => snd (format x) end.
+  match x with NV _ _ _ false _ _ => x | _ => snd (format x) end.
 
 (* ListNode *)
-Definition padfix_pad (pad : option string) (np : bool) (next : option node) : option string :=
+Definition padfix_pad (pad : option (list piece)) (np : bool) (next : option node) : option (list piece) :=
   match pad, np, next with
-  | None, false, Some nx => if is_P nx then None else Some " "
+  | None, false, Some nx => if is_P nx then None else Some [PS " "]
   | _, _, _ => pad
   end.
 
-Lemma padfix_NV : forall tok pad np hv ed nx,
-  padfix (NV tok pad np hv ed) nx = NV tok (padfix_pad pad np nx) np hv ed.
+Lemma padfix_NV : forall tok pad np hv ed vl nx,
+  padfix (NV tok pad np hv ed vl) nx = NV tok (padfix_pad pad np nx) np hv ed vl.
 Proof.
-  intros tok [p|] [|] hv ed [nx|]; simpl; try reflexivity.
+  intros tok [p|] [|] hv ed vl [nx|]; simpl; try reflexivity.
   destruct (is_P nx); reflexivity.
 Qed.
 
-Definition ctrL (x : node) (next : option node) : string :=
+(* what ListNode.format appends after child x when [rest] are the children after it *)
+Definition ctrL (x : node) (rest : list node) : string :=
   match x with
-  | NV tok pad np _ ed => fmt_leaf tok (padfix_pad pad np next) ed
+  | NV tok pad np hv ed vl => fmt_leaf tok (padfix_pad pad np (hd_error rest)) hv ed vl
+  | NK t => t ++ shortcut_sep t (is_nil rest)
   | _ => fst (format x)
   end.
-Definition stL (x : node) (next : option node) : node :=
+Definition stL (x : node) (rest : list node) : node :=
   match x with
-  | NV _ _ _ _ _ => padfix x next
+  | NV tok pad np hv ed vl =>
+      let pad' := padfix_pad pad np (hd_error rest) in
+      NV tok pad' np hv ed (vlen_after tok pad' hv ed vl)
+  | NK t => x
   | _ => snd (format x)
   end.
 
 Fixpoint txtL (l : list node) : string :=
-  match l with [] => "" | x :: r => ctrL x (hd_error r) ++ txtL r end.
+  match l with [] => "" | x :: r => ctrL x r ++ txtL r end.
 Fixpoint treL (l : list node) : list node :=
-  match l with [] => [] | x :: r => stL x (hd_error r) :: treL r end.
+  match l with [] => [] | x :: r => stL x r :: treL r end.
 
 Lemma goS_eq : forall l, goS l = (cat (map ctrS l), map stS l).
 Proof.
   induction l as [|x r IH]; [reflexivity|].
   simpl. rewrite IH.
-  destruct x as [tok pad np [|] ed|t|t|cs|cs|cs]; simpl;
+  destruct x as [tok pad np [|] ed vl|t|t|t|up o ps|cs|cs|cs]; simpl;
     try (destruct (format _) as [sx x']; reflexivity); reflexivity.
 Qed.
 
@@ -164,9 +186,10 @@ Lemma goL_eq : forall l, goL l = (txtL l, treL l).
 Proof.
   induction l as [|x r IH]; [reflexivity|].
   cbn [goL]. rewrite IH.
-  destruct x as [tok pad np hv ed|t|t|cs|cs|cs];
+  destruct x as [tok pad np hv ed vl|t|t|t|up o ps|cs|cs|cs];
     try (cbn [txtL treL ctrL stL]; destruct (format _) as [sx x']; reflexivity).
-  cbn [txtL treL ctrL stL]. rewrite padfix_NV. reflexivity.
+  - cbn [txtL treL ctrL stL]. rewrite padfix_NV. unfold fmt_V. reflexivity.
+  - cbn [txtL treL ctrL stL]. destruct r; simpl; rewrite ?append_assoc; reflexivity.
 Qed.
 
 Lemma goC_eq : forall l, goC l = (cat (map (fun x => fst (format x)) l), map (fun x => snd (format x)) l).
@@ -183,31 +206,103 @@ Lemma format_NC : forall cs,
   format (NC cs) = (cat (map (fun x => fst (format x)) cs), NC (map (fun x => snd (format x)) cs)).
 Proof. intros. rewrite format_NC_go, goC_eq. reflexivity. Qed.
 
+Ltac rw_format :=
+  first [rewrite format_NV|rewrite format_NP|rewrite format_NO|rewrite format_NK|rewrite format_NT
+        |rewrite format_NS|rewrite format_NL|rewrite format_NC].
+
 (* format keeps the constructor of a node *)
 Lemma is_V_format : forall x, is_V (snd (format x)) = is_V x.
-Proof.
-  destruct x; [rewrite format_NV|rewrite format_NP|rewrite format_NO
-              |rewrite format_NS|rewrite format_NL|rewrite format_NC]; reflexivity.
-Qed.
+Proof. destruct x; rw_format; reflexivity. Qed.
 Lemma is_P_format : forall x, is_P (snd (format x)) = is_P x.
-Proof.
-  destruct x; [rewrite format_NV|rewrite format_NP|rewrite format_NO
-              |rewrite format_NS|rewrite format_NL|rewrite format_NC]; reflexivity.
-Qed.
-Lemma format_leaf_tree : forall x, is_V x = true -> snd (format x) = x.
-Proof. destruct x; intros H; try discriminate H. reflexivity. Qed.
+Proof. destruct x; rw_format; reflexivity. Qed.
+Lemma is_K_format : forall x, is_K (snd (format x)) = is_K x.
+Proof. destruct x; rw_format; reflexivity. Qed.
 
 Lemma ctrS_nonV : forall x, is_V x = false -> ctrS x = fst (format x).
 Proof. destruct x; simpl; try discriminate; reflexivity. Qed.
 Lemma stS_nonV : forall x, is_V x = false -> stS x = snd (format x).
 Proof. destruct x; simpl; try discriminate; reflexivity. Qed.
-Lemma ctrL_nonV : forall x nx, is_V x = false -> ctrL x nx = fst (format x).
+Lemma ctrL_other : forall x rest, is_V x = false -> is_K x = false -> ctrL x rest = fst (format x).
 Proof. destruct x; simpl; try discriminate; reflexivity. Qed.
-Lemma stL_nonV : forall x nx, is_V x = false -> stL x nx = snd (format x).
+Lemma stL_other : forall x rest, is_V x = false -> is_K x = false -> stL x rest = snd (format x).
 Proof. destruct x; simpl; try discriminate; reflexivity. Qed.
 
 (* ------------------------------------------------------------------ *)
+(* ParticleNode: the order normalisation *)
+
+Lemma mem_str_true : forall x l, mem_str x l = true <-> In x l.
+Proof.
+  intros x l. unfold mem_str. rewrite existsb_exists. split.
+  - intros (y & Hy & E). apply String.eqb_eq in E. subst. exact Hy.
+  - intros H. exists x. split; [exact H|apply String.eqb_refl].
+Qed.
+
+Lemma filter_all : forall (A : Type) (f : A -> bool) l, forallb f l = true -> filter f l = l.
+Proof.
+  induction l as [|x r IH]; intros H; [reflexivity|].
+  simpl in *. apply andb_true_iff in H. destruct H as [Hx Hr]. rewrite Hx, (IH Hr). reflexivity.
+Qed.
+
+Lemma filter_none : forall (A : Type) (f : A -> bool) l, forallb (fun x => negb (f x)) l = true -> filter f l = [].
+Proof.
+  induction l as [|x r IH]; intros H; [reflexivity|].
+  simpl in *. apply andb_true_iff in H. destruct H as [Hx Hr].
+  apply negb_true_iff in Hx. rewrite Hx. apply IH, Hr.
+Qed.
+
+Lemma particles_sorted_parsed : forall o ps,
+  all_in o ps = true -> all_in ps o = true -> particles_sorted o ps = o.
+Proof.
+  intros o ps H1 H2. unfold particles_sorted, all_in in *.
+  rewrite (filter_all _ _ _ H1).
+  rewrite filter_none; [apply app_nil_r|].
+  rewrite forallb_forall in *. intros x Hx. rewrite negb_involutive. apply H2, Hx.
+Qed.
+
+Lemma particles_sorted_idem : forall o ps,
+  particles_sorted (particles_sorted o ps) ps = particles_sorted o ps.
+Proof.
+  intros o ps. apply particles_sorted_parsed; unfold all_in, particles_sorted; rewrite forallb_forall; intros x Hx.
+  - apply in_app_or in Hx. destruct Hx as [Hx|Hx]; apply filter_In in Hx.
+    + apply Hx.
+    + apply mem_str_true. apply Hx.
+  - apply mem_str_true. apply in_or_app.
+    destruct (mem_str x o) eqn:E.
+    + left. apply filter_In. split; [apply mem_str_true, E|apply mem_str_true, Hx].
+    + right. apply filter_In. split; [exact Hx|rewrite E; reflexivity].
+Qed.
+
+(* ------------------------------------------------------------------ *)
+(* ValueNode: leaf facts *)
+
+Lemma eff_vlen_some : forall tok pad v, eff_vlen tok pad (Some v) = v.
+Proof. reflexivity. Qed.
+
+Lemma vlen_after_idem : forall tok pad hv ed vl,
+  vlen_after tok pad hv ed (vlen_after tok pad hv ed vl) = vlen_after tok pad hv ed vl.
+Proof. intros tok pad [|] [e|] vl; reflexivity. Qed.
+
+Lemma fmt_leaf_after : forall tok pad hv ed vl,
+  fmt_leaf tok pad hv ed (vlen_after tok pad hv ed vl) = fmt_leaf tok pad hv ed vl.
+Proof. intros tok pad [|] [e|] vl; reflexivity. Qed.
+
+Lemma fmt_V_fmt_V : forall tok pad np hv ed vl,
+  format (snd (fmt_V tok pad np hv ed vl)) = fmt_V tok pad np hv ed vl.
+Proof.
+  intros. unfold fmt_V. cbn [snd]. rewrite format_NV. unfold fmt_V.
+  rewrite fmt_leaf_after, vlen_after_idem. reflexivity.
+Qed.
+
+(* ------------------------------------------------------------------ *)
 (* 1, 2: an unedited as-parsed tree is written exactly as read, and is not changed *)
+
+Lemma shortcut_sep_parsed : forall t last,
+  (last = true \/ orb (String.eqb t "") (ends_ws t) = true) -> shortcut_sep t last = "".
+Proof.
+  intros t last [->|H]; [reflexivity|]. unfold shortcut_sep. destruct last; [reflexivity|].
+  apply orb_true_iff in H. destruct H as [H|H]; rewrite H; [reflexivity|].
+  destruct (String.eqb t ""); reflexivity.
+Qed.
 
 Lemma format_unchanged_pair : forall n,
   unedited n = true -> as_parsed n = true -> format n = (flatten n, n).
@@ -216,6 +311,9 @@ Proof.
   - (* NV *) rewrite format_NV. simpl in Hu. destruct ed; [discriminate|]. reflexivity.
   - reflexivity.
   - reflexivity.
+  - reflexivity.
+  - (* NT *) rewrite format_NT. simpl in Ha. apply andb_true_iff in Ha. destruct Ha as [H1 H2].
+    rewrite (particles_sorted_parsed _ _ H1 H2). reflexivity.
   - (* NS *)
     rewrite format_NS. cbn [flatten]. rewrite concat_cat.
     cbn [unedited as_parsed] in Hu, Ha.
@@ -226,7 +324,7 @@ Proof.
       apply andb_true_iff in Ha. destruct Ha as [Hax Har].
       destruct (IH Hur Har) as [IH1 IH2].
       cbn [map cat]. rewrite IH1, IH2.
-      destruct x as [tok pad np [|] ed|t|t|cs0|cs0|cs0];
+      destruct x as [tok pad np [|] ed vl|t|t|t|up o ps|cs0|cs0|cs0];
         try (cbn [ctrS stS]; rewrite (Hx Hux Hax); split; reflexivity).
       cbn [ctrS stS flatten]. apply String.eqb_eq in Hax. rewrite Hax. split; reflexivity. }
     destruct E as [E1 E2]. rewrite E1, E2. reflexivity.
@@ -242,14 +340,17 @@ Proof.
       apply andb_true_iff in Ha. destruct Ha as [Hax Hap].
       destruct (IH Hur Har) as [IH1 IH2].
       cbn [map cat txtL treL]. rewrite IH1, IH2.
-      destruct x as [tok pad np hv ed|t|t|cs0|cs0|cs0];
+      destruct x as [tok pad np hv ed vl|t|t|t|up o ps|cs0|cs0|cs0];
         try (cbn [ctrL stL]; rewrite (Hx Hux Hax); split; reflexivity).
-      cbn [ctrL stL]. rewrite padfix_NV.
-      simpl in Hux. destruct ed; [discriminate|].
-      assert (Ep : padfix_pad pad np (hd_error r) = pad).
-      { destruct pad as [p|]; [reflexivity|]. destruct np; [reflexivity|].
-        destruct r as [|nx r2]; [reflexivity|]. simpl. simpl in Hap. rewrite Hap. reflexivity. }
-      rewrite Ep. split; reflexivity. }
+      + cbn [ctrL stL].
+        simpl in Hux. destruct ed; [discriminate|].
+        assert (Ep : padfix_pad pad np (hd_error r) = pad).
+        { destruct pad as [p|]; [reflexivity|]. destruct np; [reflexivity|].
+          destruct r as [|nx r2]; [reflexivity|]. simpl. simpl in Hap. rewrite Hap. reflexivity. }
+        rewrite Ep. split; reflexivity.
+      + cbn [ctrL stL flatten].
+        rewrite shortcut_sep_parsed; [rewrite append_nil_r; split; reflexivity|].
+        destruct r; [left; reflexivity|right; exact Hap]. }
     destruct E as [E1 E2]. rewrite E1, E2. reflexivity.
   - (* NC *)
     rewrite format_NC. cbn [flatten]. rewrite concat_cat.
@@ -291,12 +392,6 @@ Proof.
   rewrite H. reflexivity.
 Qed.
 
-Lemma padfix_same_next : forall x a b, same_next a b -> padfix x a = padfix x b.
-Proof.
-  intros x a b H. destruct x; try (destruct a, b; simpl in *; reflexivity || contradiction).
-  rewrite !padfix_NV. rewrite (padfix_pad_same_next _ _ _ _ H). reflexivity.
-Qed.
-
 Lemma padfix_pad_idem : forall pad np a b,
   same_next a b -> padfix_pad (padfix_pad pad np a) np b = padfix_pad pad np a.
 Proof.
@@ -306,25 +401,9 @@ Proof.
   - reflexivity.
 Qed.
 
-(* Key lemma: the padding repair is idempotent as long as the next sibling keeps its shape *)
-Lemma padfix_idem : forall x a b, same_next a b -> padfix (padfix x a) b = padfix x a.
+Lemma is_P_stL : forall x rest, is_P (stL x rest) = is_P x.
 Proof.
-  intros x a b H. destruct x; try (destruct a, b; simpl in *; reflexivity || contradiction).
-  rewrite !padfix_NV. rewrite (padfix_pad_idem _ _ _ _ H). reflexivity.
-Qed.
-
-Lemma is_P_stL : forall x nx, is_P (stL x nx) = is_P x.
-Proof.
-  intros x nx. destruct (is_V x) eqn:V.
-  - destruct x; try discriminate. cbn [stL]. rewrite padfix_NV. reflexivity.
-  - rewrite stL_nonV by assumption. apply is_P_format.
-Qed.
-
-Lemma is_V_stL : forall x nx, is_V (stL x nx) = is_V x.
-Proof.
-  intros x nx. destruct (is_V x) eqn:V.
-  - destruct x; try discriminate. cbn [stL]. rewrite padfix_NV. reflexivity.
-  - rewrite stL_nonV by assumption. rewrite is_V_format. assumption.
+  intros x rest. destruct x; try reflexivity; cbn [stL]; apply is_P_format.
 Qed.
 
 Lemma same_next_treL : forall r, same_next (hd_error r) (hd_error (treL r)).
@@ -332,12 +411,37 @@ Proof.
   destruct r as [|y r2]; simpl; [exact I|]. symmetry. apply is_P_stL.
 Qed.
 
+Lemma is_nil_treL : forall r, is_nil (treL r) = is_nil r.
+Proof. destruct r; reflexivity. Qed.
+
+(* the contribution of a child only depends on the shape of what follows it *)
+Definition same_rest (a b : list node) : Prop :=
+  same_next (hd_error a) (hd_error b) /\ is_nil a = is_nil b.
+
+Lemma same_rest_treL : forall r, same_rest r (treL r).
+Proof. intros r. split; [apply same_next_treL|symmetry; apply is_nil_treL]. Qed.
+
+Lemma ctrL_same_rest : forall x a b, same_rest a b -> ctrL x a = ctrL x b.
+Proof.
+  intros x a b [H1 H2]. destruct x; try reflexivity; cbn [ctrL].
+  - rewrite (padfix_pad_same_next _ _ _ _ H1). reflexivity.
+  - rewrite H2. reflexivity.
+Qed.
+
+Lemma stL_same_rest : forall x a b, same_rest a b -> stL x a = stL x b.
+Proof.
+  intros x a b [H1 H2]. destruct x; try reflexivity; cbn [stL].
+  rewrite (padfix_pad_same_next _ _ _ _ H1). reflexivity.
+Qed.
+
 Lemma format_format : forall n, format (snd (format n)) = format n.
 Proof.
   induction n using node_ind'.
-  - rewrite format_NV. reflexivity.
+  - rewrite format_NV. apply fmt_V_fmt_V.
   - reflexivity.
   - reflexivity.
+  - reflexivity.
+  - rewrite format_NT. cbn [snd]. rewrite format_NT, particles_sorted_idem. reflexivity.
   - (* NS *)
     rewrite format_NS. cbn [snd]. rewrite format_NS.
     assert (E : cat (map ctrS (map stS cs)) = cat (map ctrS cs) /\ map stS (map stS cs) = map stS cs).
@@ -345,8 +449,11 @@ Proof.
       destruct IH as [IH1 IH2]. cbn [map cat]. rewrite IH1, IH2.
       assert (Ex : ctrS (stS x) = ctrS x /\ stS (stS x) = stS x).
       { destruct (is_V x) eqn:V.
-        - destruct x as [tok pad np [|] ed|t|t|cs0|cs0|cs0]; try discriminate;
-            cbn [stS ctrS]; rewrite ?format_NV; split; reflexivity.
+        - destruct x as [tok pad np [|] ed vl|t|t|t|up o ps|cs0|cs0|cs0]; try discriminate;
+            cbn [stS ctrS]; [|split; reflexivity].
+          rewrite format_NV. unfold fmt_V. cbn [snd fst stS ctrS].
+          rewrite format_NV. unfold fmt_V. cbn [snd fst].
+          rewrite fmt_leaf_after, vlen_after_idem. split; reflexivity.
         - assert (V' : is_V (snd (format x)) = false) by (rewrite is_V_format; exact V).
           rewrite (stS_nonV x V). rewrite (ctrS_nonV _ V'), (stS_nonV _ V'), (ctrS_nonV x V).
           rewrite Hx. split; reflexivity. }
@@ -357,16 +464,20 @@ Proof.
     assert (E : txtL (treL cs) = txtL cs /\ treL (treL cs) = treL cs).
     { induction H as [|x r Hx Hr IH]; [split; reflexivity|].
       destruct IH as [IH1 IH2]. cbn [txtL treL]. rewrite IH1, IH2.
-      pose proof (same_next_treL r) as SN.
-      assert (Ex : ctrL (stL x (hd_error r)) (hd_error (treL r)) = ctrL x (hd_error r)
-                   /\ stL (stL x (hd_error r)) (hd_error (treL r)) = stL x (hd_error r)).
-      { destruct (is_V x) eqn:V.
-        - destruct x as [tok pad np hv ed|t|t|cs0|cs0|cs0]; try discriminate.
-          cbn [stL]. rewrite padfix_NV. cbn [stL ctrL]. rewrite padfix_NV.
-          rewrite (padfix_pad_idem _ _ _ _ SN). split; reflexivity.
+      pose proof (same_rest_treL r) as SR.
+      rewrite <- (ctrL_same_rest (stL x r) _ _ SR), <- (stL_same_rest (stL x r) _ _ SR).
+      assert (Ex : ctrL (stL x r) r = ctrL x r /\ stL (stL x r) r = stL x r).
+      { destruct (is_V x) eqn:V; [|destruct (is_K x) eqn:K].
+        - destruct x as [tok pad np hv ed vl|t|t|t|up o ps|cs0|cs0|cs0]; try discriminate.
+          cbn [stL ctrL].
+          rewrite (padfix_pad_idem pad np (hd_error r) (hd_error r)).
+          + rewrite fmt_leaf_after, vlen_after_idem. split; reflexivity.
+          + destruct (hd_error r); simpl; [reflexivity|exact I].
+        - destruct x; try discriminate. cbn [stL ctrL]. split; reflexivity.
         - assert (V' : is_V (snd (format x)) = false) by (rewrite is_V_format; exact V).
-          rewrite (stL_nonV x _ V). rewrite (ctrL_nonV _ _ V'), (stL_nonV _ _ V'), (ctrL_nonV x _ V).
-          rewrite Hx. split; reflexivity. }
+          assert (K' : is_K (snd (format x)) = false) by (rewrite is_K_format; exact K).
+          rewrite (stL_other x r V K), (ctrL_other _ r V' K'), (stL_other _ r V' K'), (ctrL_other x r V K), Hx.
+          split; reflexivity. }
       destruct Ex as [Ex1 Ex2]. rewrite Ex1, Ex2. split; reflexivity. }
     destruct E as [E1 E2]. rewrite E1, E2. reflexivity.
   - (* NC *)
@@ -397,6 +508,8 @@ Definition upd_nth (f : node -> node) : list node -> nat -> list node :=
     | x :: rest, Datatypes.S k' => x :: upd rest k'
     end.
 
+Lemma set_leaf_nil : forall r n, set_leaf [] r n = set_value n r.
+Proof. reflexivity. Qed.
 Lemma set_leaf_NS : forall i p r cs, set_leaf (i :: p) r (NS cs) = NS (upd_nth (set_leaf p r) cs i).
 Proof. reflexivity. Qed.
 Lemma set_leaf_NL : forall i p r cs, set_leaf (i :: p) r (NL cs) = NL (upd_nth (set_leaf p r) cs i).
@@ -408,12 +521,17 @@ Lemma is_V_set_leaf : forall p r x, is_V (set_leaf p r x) = is_V x.
 Proof. destruct p, x; reflexivity. Qed.
 Lemma is_P_set_leaf : forall p r x, is_P (set_leaf p r x) = is_P x.
 Proof. destruct p, x; reflexivity. Qed.
+Lemma is_K_set_leaf : forall p r x, is_K (set_leaf p r x) = is_K x.
+Proof. destruct p, x; reflexivity. Qed.
 
 Lemma leaf_at_V : forall p x l, leaf_at p x = Some l -> is_V x = true -> p = [] /\ x = l.
 Proof.
   intros p x l H V. destruct x; try discriminate.
   destruct p; simpl in H; [|discriminate]. inversion H. split; reflexivity.
 Qed.
+
+Lemma leaf_at_not_K : forall p x l, leaf_at p x = Some l -> is_K x = false.
+Proof. intros p x l H. destruct x; try reflexivity. destruct p; discriminate. Qed.
 
 Lemma cat_map_upd : forall (g : node -> string) f cs i c,
   nth_error cs i = Some c ->
@@ -427,55 +545,98 @@ Proof.
       exists (g x ++ A), B. cbn [upd_nth map cat]. rewrite H1, H2, !append_assoc. split; reflexivity.
 Qed.
 
-Lemma same_next_upd : forall f r k,
-  (forall x, is_P (f x) = is_P x) -> same_next (hd_error r) (hd_error (upd_nth f r k)).
-Proof.
-  intros f r k Hf. destruct r as [|y r2]; [destruct k; exact I|].
-  destruct k; simpl; [symmetry; apply Hf | reflexivity].
-Qed.
+Lemma same_rest_refl : forall r, same_rest r r.
+Proof. intros r. split; [|reflexivity]. destruct r; simpl; [exact I|reflexivity]. Qed.
 
-Lemma ctrL_same_next : forall x a b, same_next a b -> ctrL x a = ctrL x b.
+Lemma same_rest_upd : forall f r k,
+  (forall x, is_P (f x) = is_P x) -> same_rest r (upd_nth f r k).
 Proof.
-  intros x a b H. destruct x; try reflexivity.
-  cbn [ctrL]. rewrite (padfix_pad_same_next _ _ _ _ H). reflexivity.
+  intros f r k Hf. destruct r as [|y r2]; [destruct k; apply same_rest_refl|].
+  destruct k; (split; [simpl|reflexivity]); [symmetry; apply Hf|reflexivity].
 Qed.
 
 Lemma txtL_upd : forall f, (forall x, is_P (f x) = is_P x) ->
   forall cs i c, nth_error cs i = Some c ->
-  exists A B, txtL cs = A ++ ctrL c (hd_error (skipn (Datatypes.S i) cs)) ++ B
-           /\ txtL (upd_nth f cs i) = A ++ ctrL (f c) (hd_error (skipn (Datatypes.S i) cs)) ++ B.
+  exists A B, txtL cs = A ++ ctrL c (skipn (Datatypes.S i) cs) ++ B
+           /\ txtL (upd_nth f cs i) = A ++ ctrL (f c) (skipn (Datatypes.S i) cs) ++ B.
 Proof.
   intros f Hf. induction cs as [|x r IH]; intros i c H.
   - destruct i; discriminate.
   - destruct i as [|k]; simpl in H.
     + inversion H; subst. exists "", (txtL r). split; reflexivity.
     + destruct (IH k c H) as (A & B & H1 & H2).
-      exists (ctrL x (hd_error r) ++ A), B.
+      exists (ctrL x r ++ A), B.
       change (skipn (Datatypes.S (Datatypes.S k)) (x :: r)) with (skipn (Datatypes.S k) r).
       cbn [upd_nth txtL].
-      rewrite <- (ctrL_same_next x _ _ (same_next_upd f r k Hf)).
+      rewrite <- (ctrL_same_rest x _ _ (same_rest_upd f r k Hf)).
       rewrite H1, H2, !append_assoc. split; reflexivity.
 Qed.
 
 (* what the leaf contributed before the edit: nothing when it was a skipped SyntaxNode value,
    otherwise its rendering with its own padding or, inside a ListNode, with the repaired padding *)
-Definition old_text (old tok : string) (pad : option string) (np hv : bool) (ed : option string) : Prop :=
+Definition old_text (old tok : string) (pad : option (list piece)) (np hv : bool) (ed : option string)
+           (vl : option nat) : Prop :=
   (old = "" /\ hv = false)
-  \/ old = fmt_leaf tok pad ed
-  \/ (pad = None /\ np = false /\ old = fmt_leaf tok (Some " ") ed).
+  \/ old = fmt_leaf tok pad hv ed vl
+  \/ (pad = None /\ np = false /\ old = fmt_leaf tok (Some [PS " "]) hv ed vl).
 
-Theorem edit_local : forall path n r tok pad np hv ed,
-  leaf_at path n = Some (NV tok pad np hv ed) ->
-  exists pre post old,
-    fst (format n) = pre ++ old ++ post
-    /\ fst (format (set_leaf path r n)) = pre ++ r ++ post
-    /\ old_text old tok pad np hv ed.
+(* what it contributes afterwards: the new rendering r in the leaf's field (ValueNode.format's width and blank
+   logic), followed by the rest of its padding; the padding is the leaf's own, or the single blank that the value
+   setter / ListNode.format give a leaf that has none *)
+Definition new_text (new r tok : string) (pad : option (list piece)) (np : bool) (vl : option nat) : Prop :=
+  exists pad', (pad' = pad \/ (pad = None /\ np = false /\ pad' = Some [PS " "]))
+            /\ new = fmt_changed r (eff_vlen tok pad' vl) pad'.
+
+Lemma fmt_changed_prefix : forall r v pad, exists tail, fmt_changed r v pad = r ++ tail.
 Proof.
-  induction path as [|i p IH]; intros n r tok pad np hv ed H.
+  intros r v pad. unfold fmt_changed, ljust.
+  destruct pad as [[|p0 rest]|]; try (eexists; reflexivity).
+  destruct (is_space_piece p0); rewrite !append_assoc; eexists; reflexivity.
+Qed.
+
+(* "each edited quantity carries its new value": the new text of the leaf starts with the new rendering *)
+Lemma new_text_prefix : forall new r tok pad np vl, new_text new r tok pad np vl -> exists tail, new = r ++ tail.
+Proof. intros new r tok pad np vl (pad' & _ & ->). apply fmt_changed_prefix. Qed.
+
+(* the padding after the value setter *)
+Definition sv_pad (pad : option (list piece)) (np hv : bool) : option (list piece) :=
+  match pad, np, hv with None, false, false => Some [PS " "] | _, _, _ => pad end.
+
+Lemma set_value_NV : forall tok pad np hv ed vl r,
+  set_value (NV tok pad np hv ed vl) r = NV tok (sv_pad pad np hv) np true (Some r) vl.
+Proof. reflexivity. Qed.
+
+Lemma sv_pad_true : forall pad np, sv_pad pad np true = pad.
+Proof. intros [p|] [|]; reflexivity. Qed.
+
+Lemma sv_pad_cases : forall pad np hv,
+  sv_pad pad np hv = pad \/ (pad = None /\ np = false /\ sv_pad pad np hv = Some [PS " "]).
+Proof. intros [p|] [|] [|]; simpl; auto. Qed.
+
+Lemma padfix_sv_cases : forall pad np hv nx,
+  padfix_pad (sv_pad pad np hv) np nx = pad
+  \/ (pad = None /\ np = false /\ padfix_pad (sv_pad pad np hv) np nx = Some [PS " "]).
+Proof.
+  intros [p|] [|] [|] [nx|]; simpl; auto; destruct (is_P nx); auto.
+Qed.
+
+Theorem edit_local : forall path n r tok pad np hv ed vl,
+  leaf_at path n = Some (NV tok pad np hv ed vl) ->
+  exists pre post old new,
+    fst (format n) = pre ++ old ++ post
+    /\ fst (format (set_leaf path r n)) = pre ++ new ++ post
+    /\ old_text old tok pad np hv ed vl
+    /\ new_text new r tok pad np vl.
+Proof.
+  induction path as [|i p IH]; intros n r tok pad np hv ed vl H.
   - destruct n; simpl in H; try discriminate. inversion H; subst.
-    exists "", "", (fmt_leaf tok pad ed). cbn [set_leaf]. rewrite !format_NV. cbn [fst fmt_leaf].
-    rewrite !append_nil_r. split; [reflexivity|]. split; [reflexivity|]. right; left; reflexivity.
-  - destruct n as [tok0 pad0 np0 hv0 ed0|t|t|cs|cs|cs]; simpl in H; try discriminate;
+    exists "", "", (fmt_leaf tok pad hv ed vl),
+      (fmt_changed r (eff_vlen tok (sv_pad pad np hv) vl) (sv_pad pad np hv)).
+    rewrite set_leaf_nil, set_value_NV, !format_NV. unfold fmt_V. cbn [fst fmt_leaf].
+    cbn [append]. rewrite !append_nil_r. split; [reflexivity|]. split; [reflexivity|].
+    split; [right; left; reflexivity|].
+    exists (sv_pad pad np hv). split; [apply sv_pad_cases|reflexivity].
+  - destruct n as [tok0 pad0 np0 hv0 ed0 vl0|t|t|t|up o ps|cs|cs|cs]; simpl in H; try discriminate;
       destruct (nth_error cs i) as [c|] eqn:E; try discriminate.
     + (* NS *)
       rewrite set_leaf_NS, !format_NS. cbn [fst].
@@ -483,64 +644,65 @@ Proof.
       rewrite H1, H2.
       destruct (is_V c) eqn:V.
       * destruct (leaf_at_V _ _ _ H V) as [-> ->].
-        cbn [set_leaf ctrS].
-        destruct hv.
-        -- exists A, B, (fmt_leaf tok pad ed). rewrite !format_NV. cbn [fst fmt_leaf].
-           split; [reflexivity|]. split; [reflexivity|]. right; left; reflexivity.
-        -- exists A, B, "". rewrite !format_NV. cbn [fst fmt_leaf].
-           split; [reflexivity|]. split; [reflexivity|]. left; split; reflexivity.
+        rewrite set_leaf_nil, set_value_NV.
+        exists A, B, (if hv then fmt_leaf tok pad true ed vl else ""),
+          (fmt_changed r (eff_vlen tok (sv_pad pad np hv) vl) (sv_pad pad np hv)).
+        split; [destruct hv; reflexivity|]. split; [reflexivity|].
+        split; [destruct hv; [right; left; reflexivity|left; split; reflexivity]|].
+        exists (sv_pad pad np hv). split; [apply sv_pad_cases|reflexivity].
       * rewrite (ctrS_nonV c V).
         rewrite (ctrS_nonV (set_leaf p r c)) by (rewrite is_V_set_leaf; exact V).
-        destruct (IH c r _ _ _ _ _ H) as (pre & post & old & F1 & F2 & F3).
-        exists (A ++ pre), (post ++ B), old. rewrite F1, F2, !append_assoc.
-        split; [reflexivity|]. split; [reflexivity|]. exact F3.
+        destruct (IH c r _ _ _ _ _ _ H) as (pre & post & old & new & F1 & F2 & F3 & F4).
+        exists (A ++ pre), (post ++ B), old, new. rewrite F1, F2, !append_assoc.
+        split; [reflexivity|]. split; [reflexivity|]. split; assumption.
     + (* NL *)
       rewrite set_leaf_NL, !format_NL. cbn [fst].
       destruct (txtL_upd (set_leaf p r) (is_P_set_leaf p r) cs i c E) as (A & B & H1 & H2).
       rewrite H1, H2.
       destruct (is_V c) eqn:V.
       * destruct (leaf_at_V _ _ _ H V) as [-> ->].
-        cbn [set_leaf ctrL fmt_leaf].
-        exists A, B, (fmt_leaf tok (padfix_pad pad np (hd_error (skipn (Datatypes.S i) cs))) ed).
-        split; [reflexivity|]. split; [reflexivity|].
-        destruct pad as [pd|]; [right; left; reflexivity|].
-        destruct np; [right; left; reflexivity|].
-        destruct (hd_error (skipn (Datatypes.S i) cs)) as [nx|]; [|right; left; reflexivity].
-        simpl. destruct (is_P nx); [right; left; reflexivity|].
-        right; right. split; [reflexivity|]. split; reflexivity.
-      * rewrite (ctrL_nonV c _ V).
-        rewrite (ctrL_nonV (set_leaf p r c)) by (rewrite is_V_set_leaf; exact V).
-        destruct (IH c r _ _ _ _ _ H) as (pre & post & old & F1 & F2 & F3).
-        exists (A ++ pre), (post ++ B), old. rewrite F1, F2, !append_assoc.
-        split; [reflexivity|]. split; [reflexivity|]. exact F3.
+        rewrite set_leaf_nil, set_value_NV. cbn [ctrL fmt_leaf].
+        set (nx := hd_error (skipn (Datatypes.S i) cs)).
+        exists A, B, (fmt_leaf tok (padfix_pad pad np nx) hv ed vl),
+          (fmt_changed r (eff_vlen tok (padfix_pad (sv_pad pad np hv) np nx) vl) (padfix_pad (sv_pad pad np hv) np nx)).
+        split; [reflexivity|]. split; [reflexivity|]. split.
+        -- destruct pad as [pd|]; [right; left; reflexivity|].
+           destruct np; [right; left; reflexivity|].
+           destruct nx as [x|]; [|right; left; reflexivity].
+           simpl. destruct (is_P x); [right; left; reflexivity|].
+           right; right. split; [reflexivity|]. split; reflexivity.
+        -- eexists. split; [apply padfix_sv_cases|reflexivity].
+      * assert (K : is_K c = false) by (eapply leaf_at_not_K; exact H).
+        rewrite (ctrL_other c _ V K).
+        rewrite (ctrL_other (set_leaf p r c)) by (rewrite ?is_V_set_leaf, ?is_K_set_leaf; assumption).
+        destruct (IH c r _ _ _ _ _ _ H) as (pre & post & old & new & F1 & F2 & F3 & F4).
+        exists (A ++ pre), (post ++ B), old, new. rewrite F1, F2, !append_assoc.
+        split; [reflexivity|]. split; [reflexivity|]. split; assumption.
     + (* NC *)
       rewrite set_leaf_NC, !format_NC. cbn [fst].
       destruct (cat_map_upd (fun x => fst (format x)) (set_leaf p r) cs i c E) as (A & B & H1 & H2).
       rewrite H1, H2.
-      destruct (IH c r _ _ _ _ _ H) as (pre & post & old & F1 & F2 & F3).
-      exists (A ++ pre), (post ++ B), old. rewrite F1, F2, !append_assoc.
-      split; [reflexivity|]. split; [reflexivity|]. exact F3.
+      destruct (IH c r _ _ _ _ _ _ H) as (pre & post & old & new & F1 & F2 & F3 & F4).
+      exists (A ++ pre), (post ++ B), old, new. rewrite F1, F2, !append_assoc.
+      split; [reflexivity|]. split; [reflexivity|]. split; assumption.
 Qed.
 
-(* the common case: a printed leaf that needs no padding repair contributes exactly its own text *)
-Corollary edit_local_padded : forall path n r tok pad np ed,
-  leaf_at path n = Some (NV tok pad np true ed) ->
-  (pad <> None \/ np = true) ->
+(* the common case: a printed leaf with padding of its own: exactly its own text is replaced *)
+Corollary edit_local_padded : forall path n r tok pd np ed vl,
+  leaf_at path n = Some (NV tok (Some pd) np true ed vl) ->
   exists pre post,
-    fst (format n) = pre ++ fmt_leaf tok pad ed ++ post
-    /\ fst (format (set_leaf path r n)) = pre ++ r ++ post.
+    fst (format n) = pre ++ fmt_leaf tok (Some pd) true ed vl ++ post
+    /\ fst (format (set_leaf path r n)) = pre ++ fmt_changed r (eff_vlen tok (Some pd) vl) (Some pd) ++ post.
 Proof.
-  intros path n r tok pad np ed H Hp.
-  destruct (edit_local path n r _ _ _ _ _ H) as (pre & post & old & F1 & F2 & F3).
-  exists pre, post. split; [|exact F2].
-  destruct F3 as [[_ F]|[F|(F & G & _)]].
-  - discriminate.
-  - rewrite <- F. exact F1.
-  - destruct Hp as [Hp|Hp]; [contradiction|congruence].
+  intros path n r tok pd np ed vl H.
+  destruct (edit_local path n r _ _ _ _ _ _ H) as (pre & post & old & new & F1 & F2 & F3 & F4).
+  exists pre, post. split.
+  - destruct F3 as [[_ F]|[F|(F & _)]]; [discriminate|rewrite <- F; exact F1|discriminate].
+  - destruct F4 as (pad' & [->|(F & _)] & ->); [exact F2|discriminate].
 Qed.
 
 (* ------------------------------------------------------------------ *)
-(* 6: the other leaves are untouched *)
+(* 6: the other leaves are untouched — by one edit, and by a whole program of edits *)
 
 Lemma nth_error_upd_same : forall f cs i c,
   nth_error cs i = Some c -> nth_error (upd_nth f cs i) i = Some (f c).
@@ -548,6 +710,13 @@ Proof.
   intros f. induction cs as [|x r IH]; intros [|k] c H; simpl in *; try discriminate.
   - inversion H; reflexivity.
   - apply IH; assumption.
+Qed.
+
+Lemma nth_error_upd_none : forall f cs i,
+  nth_error cs i = None -> upd_nth f cs i = cs.
+Proof.
+  intros f. induction cs as [|x r IH]; intros [|k] H; simpl in *; try reflexivity; try discriminate.
+  rewrite (IH k H). reflexivity.
 Qed.
 
 Lemma nth_error_upd_other : forall f cs i j,
@@ -558,29 +727,672 @@ Proof.
   - apply IH. congruence.
 Qed.
 
-Theorem edit_other_leaves : forall p q n r l,
-  p <> q -> leaf_at q n = Some l -> leaf_at p n <> None ->
-  leaf_at q (set_leaf p r n) = Some l.
+Lemma leaf_at_cons_V : forall i q tok pad np hv ed vl, leaf_at (i :: q) (NV tok pad np hv ed vl) = None.
+Proof. reflexivity. Qed.
+
+(* an edit at p does not change what is found at any other path q (whether or not p names a leaf) *)
+Theorem edit_other_paths : forall p q n r, p <> q -> leaf_at q (set_leaf p r n) = leaf_at q n.
 Proof.
-  induction p as [|i p IH]; intros q n r l Hne Hq Hp.
-  - destruct n; simpl in Hp; try congruence.
-    destruct q; [congruence|]. simpl in Hq. discriminate.
-  - destruct q as [|j q].
-    + destruct n; simpl in Hp; try congruence; simpl in Hq; discriminate.
-    + assert (Hpq : i <> j \/ (i = j /\ p <> q)).
-      { destruct (Nat.eq_dec i j) as [->|N]; [right|left; exact N].
-        split; [reflexivity|]. intro; subst; apply Hne; reflexivity. }
-      destruct n as [tok0 pad0 np0 hv0 ed0|t|t|cs|cs|cs]; simpl in Hp; try congruence;
-        [rewrite set_leaf_NS|rewrite set_leaf_NL|rewrite set_leaf_NC];
-        simpl in Hq |- *;
-        destruct (nth_error cs i) as [c|] eqn:Ei; try congruence;
-        (destruct Hpq as [N|[-> N]];
-         [ rewrite (nth_error_upd_other _ _ _ _ N); exact Hq
-         | rewrite (nth_error_upd_same _ _ _ _ Ei); rewrite Ei in Hq; apply IH; assumption ]).
+  induction p as [|i p IH]; intros q n r Hne.
+  - rewrite set_leaf_nil. destruct q as [|j q]; [congruence|].
+    destruct n; reflexivity.
+  - destruct n as [tok0 pad0 np0 hv0 ed0 vl0|t|t|t|up o ps|cs|cs|cs]; try reflexivity;
+      [rewrite set_leaf_NS|rewrite set_leaf_NL|rewrite set_leaf_NC];
+      (destruct q as [|j q]; [reflexivity|]);
+      cbn [leaf_at];
+      (destruct (Nat.eq_dec i j) as [->|N];
+       [ destruct (nth_error cs j) as [c|] eqn:Ej;
+         [ rewrite (nth_error_upd_same _ _ _ _ Ej); apply IH; intro; subst; apply Hne; reflexivity
+         | rewrite (nth_error_upd_none _ _ _ Ej), Ej; reflexivity ]
+       | rewrite (nth_error_upd_other _ _ _ _ N); reflexivity ]).
+Qed.
+
+Theorem edit_other_leaves : forall p q n r l,
+  p <> q -> leaf_at q n = Some l -> leaf_at q (set_leaf p r n) = Some l.
+Proof. intros p q n r l Hne Hq. rewrite (edit_other_paths p q n r Hne). exact Hq. Qed.
+
+(* the edited leaf itself: its token, padding policy and formatter state are kept, it has a value and carries r *)
+Theorem edit_same_leaf : forall p n r l,
+  leaf_at p n = Some l -> leaf_at p (set_leaf p r n) = Some (set_value l r).
+Proof.
+  induction p as [|i p IH]; intros n r l H.
+  - destruct n; simpl in H; try discriminate. inversion H; subst. reflexivity.
+  - destruct n as [tok0 pad0 np0 hv0 ed0 vl0|t|t|t|up o ps|cs|cs|cs]; simpl in H; try discriminate;
+      [rewrite set_leaf_NS|rewrite set_leaf_NL|rewrite set_leaf_NC]; cbn [leaf_at];
+      (destruct (nth_error cs i) as [c|] eqn:E; [|discriminate]);
+      rewrite (nth_error_upd_same _ _ _ _ E); apply IH; exact H.
+Qed.
+
+Definition leaf_edit (n : node) : option string := match n with NV _ _ _ _ ed _ => ed | _ => None end.
+
+Lemma leaf_edit_set_value : forall l r, is_V l = true -> leaf_edit (set_value l r) = Some r.
+Proof. destruct l; intros r H; try discriminate. reflexivity. Qed.
+
+Lemma leaf_at_is_V : forall p n l, leaf_at p n = Some l -> is_V l = true.
+Proof.
+  induction p as [|i p IH]; intros n l H.
+  - destruct n; simpl in H; try discriminate. inversion H. reflexivity.
+  - destruct n; simpl in H; try discriminate; destruct (nth_error _ i); try discriminate; eapply IH; exact H.
+Qed.
+
+Lemma apply_edits_cons : forall e es n, apply_edits (e :: es) n = apply_edits es (set_leaf (fst e) (snd e) n).
+Proof. reflexivity. Qed.
+Lemma apply_edits_app : forall es1 es2 n, apply_edits (es1 ++ es2) n = apply_edits es2 (apply_edits es1 n).
+Proof. intros. unfold apply_edits. apply fold_left_app. Qed.
+
+(* a program of edits leaves every path that it does not name as it was (induction on the program) *)
+Theorem edits_other_paths : forall es q n,
+  (forall e, In e es -> fst e <> q) -> leaf_at q (apply_edits es n) = leaf_at q n.
+Proof.
+  induction es as [|e es IH]; intros q n H; [reflexivity|].
+  rewrite apply_edits_cons, IH.
+  - apply edit_other_paths. apply H. left. reflexivity.
+  - intros e' He'. apply H. right. exact He'.
+Qed.
+
+(* an edited leaf stays a leaf under every later edit *)
+Lemma edits_keep_leaves : forall es p n l,
+  leaf_at p n = Some l -> exists l', leaf_at p (apply_edits es n) = Some l'.
+Proof.
+  induction es as [|e es IH]; intros p n l H; [exists l; exact H|].
+  rewrite apply_edits_cons.
+  destruct (list_eq_dec Nat.eq_dec (fst e) p) as [E|N].
+  - subst p. eapply IH. apply edit_same_leaf. exact H.
+  - eapply IH. rewrite (edit_other_paths _ _ _ _ N). exact H.
+Qed.
+
+(* ... and carries the rendering of the LAST edit that names it (repeated edits of the same quantity) *)
+Theorem edits_last_wins : forall es1 es2 p r n l,
+  leaf_at p n = Some l -> (forall e, In e es2 -> fst e <> p) ->
+  exists l', leaf_at p (apply_edits (es1 ++ (p, r) :: es2) n) = Some l' /\ leaf_edit l' = Some r.
+Proof.
+  intros es1 es2 p r n l H Hn.
+  rewrite apply_edits_app, apply_edits_cons. cbn [fst snd].
+  destruct (edits_keep_leaves es1 p n l H) as (l1 & H1).
+  rewrite (edits_other_paths es2 p _ Hn).
+  exists (set_value l1 r). split; [apply edit_same_leaf; exact H1|].
+  apply leaf_edit_set_value. eapply leaf_at_is_V. exact H1.
 Qed.
 
 (* ------------------------------------------------------------------ *)
-(* 7: the writer's block structure *)
+(* 7: an observation (a format that mutates the tree) between edits does not matter *)
+
+Lemma upd_nth_length : forall f cs i, List.length (upd_nth f cs i) = List.length cs.
+Proof. intros f. induction cs as [|x r IH]; intros [|k]; simpl; try reflexivity. rewrite IH. reflexivity. Qed.
+
+Lemma stL_is_V : forall x rest, is_V (stL x rest) = is_V x.
+Proof. intros x rest. destruct x; try reflexivity; cbn [stL]; apply is_V_format. Qed.
+Lemma stL_is_K : forall x rest, is_K (stL x rest) = is_K x.
+Proof. intros x rest. destruct x; try reflexivity; cbn [stL]; apply is_K_format. Qed.
+
+Lemma set_value_nonV : forall n r, is_V n = false -> set_value n r = n.
+Proof. destruct n; intros r H; try discriminate; reflexivity. Qed.
+
+Lemma set_leaf_K : forall p r x, is_K x = true -> set_leaf p r x = x.
+Proof. intros p r x H. destruct x; try discriminate. destruct p; reflexivity. Qed.
+
+Lemma set_leaf_V_cons : forall i p r x, is_V x = true -> set_leaf (i :: p) r x = x.
+Proof. intros i p r x H. destruct x; try discriminate. reflexivity. Qed.
+
+(* a leaf of a ListNode: observing it first (padding repair, field width fixed) and then editing it gives the
+   same text and the same leaf as editing it directly *)
+Lemma leafL_commute : forall tok pad np hv ed vl r rest,
+  let x := NV tok pad np hv ed vl in
+  ctrL (set_value (stL x rest) r) rest = ctrL (set_value x r) rest
+  /\ stL (set_value (stL x rest) r) rest = stL (set_value x r) rest.
+Proof.
+  intros tok pad np hv ed vl r rest x. subst x. cbn [stL]. rewrite !set_value_NV. cbn [ctrL stL].
+  set (nx := hd_error rest).
+  assert (Ep : padfix_pad (sv_pad (padfix_pad pad np nx) np hv) np nx = padfix_pad (sv_pad pad np hv) np nx).
+  { destruct pad as [pd|]; [destruct np, hv; reflexivity|].
+    destruct np; [destruct hv; reflexivity|].
+    destruct nx as [y|]; simpl; [destruct (is_P y) eqn:P; destruct hv; simpl; rewrite ?P; reflexivity
+                                |destruct hv; reflexivity]. }
+  rewrite Ep. set (pad2 := padfix_pad (sv_pad pad np hv) np nx).
+  assert (Ev : eff_vlen tok pad2 (vlen_after tok (padfix_pad pad np nx) hv ed vl) = eff_vlen tok pad2 vl).
+  { destruct ed as [e|]; [|reflexivity]. destruct hv; [|reflexivity]. cbn [vlen_after].
+    destruct vl as [v|]; [reflexivity|]. cbn [eff_vlen].
+    unfold pad2. rewrite sv_pad_true. reflexivity. }
+  cbn [fmt_leaf vlen_after]. rewrite Ev. split; reflexivity.
+Qed.
+
+Lemma leafS_commute : forall tok pad np hv ed vl r,
+  let x := NV tok pad np hv ed vl in
+  ctrS (set_value (stS x) r) = ctrS (set_value x r) /\ stS (set_value (stS x) r) = stS (set_value x r).
+Proof.
+  intros tok pad np hv ed vl r x. subst x. destruct hv; [|split; reflexivity].
+  cbn [stS]. rewrite format_NV. unfold fmt_V. cbn [snd]. rewrite !set_value_NV. cbn [ctrS stS].
+  rewrite !format_NV. unfold fmt_V. cbn [fst snd].
+  rewrite sv_pad_true. cbn [fmt_leaf vlen_after].
+  assert (Ev : eff_vlen tok pad (vlen_after tok pad true ed vl) = eff_vlen tok pad vl).
+  { destruct ed; [|reflexivity]. destruct vl; reflexivity. }
+  rewrite Ev. split; reflexivity.
+Qed.
+
+Theorem observe_commutes_pair : forall n p r,
+  format (set_leaf p r (snd (format n))) = format (set_leaf p r n).
+Proof.
+  induction n using node_ind'; intros p r.
+  - (* NV *) destruct p as [|i p].
+    + rewrite !set_leaf_nil, format_NV. unfold fmt_V. cbn [snd]. rewrite !set_value_NV, !format_NV. unfold fmt_V.
+      cbn [fmt_leaf vlen_after].
+      assert (Ev : eff_vlen tok (sv_pad pad np hv) (vlen_after tok pad hv ed vl) = eff_vlen tok (sv_pad pad np hv) vl).
+      { destruct ed; [|reflexivity]. destruct hv; [|reflexivity]. rewrite sv_pad_true.
+        destruct vl; reflexivity. }
+      rewrite Ev. reflexivity.
+    + rewrite format_NV. unfold fmt_V. cbn [snd]. cbn [set_leaf]. rewrite !format_NV. apply fmt_V_fmt_V.
+  - (* NP *) destruct p; reflexivity.
+  - destruct p; reflexivity.
+  - destruct p; reflexivity.
+  - (* NT *) rewrite format_NT. cbn [snd].
+    assert (E : forall o, set_leaf p r (NT up o ps) = NT up o ps) by (intros; destruct p; reflexivity).
+    rewrite !E, !format_NT, particles_sorted_idem. reflexivity.
+  - (* NS *)
+    destruct p as [|i p].
+    + rewrite !set_leaf_nil.
+      assert (V : is_V (snd (format (NS cs))) = false) by (rewrite is_V_format; reflexivity).
+      rewrite (set_value_nonV _ r V), (set_value_nonV (NS cs) r eq_refl). apply format_format.
+    + rewrite format_NS. cbn [snd]. rewrite !set_leaf_NS, !format_NS.
+      assert (E : cat (map ctrS (upd_nth (set_leaf p r) (map stS cs) i)) = cat (map ctrS (upd_nth (set_leaf p r) cs i))
+                  /\ map stS (upd_nth (set_leaf p r) (map stS cs) i) = map stS (upd_nth (set_leaf p r) cs i)).
+      { revert i. induction H as [|x rest Hx Hr IHl]; intros i; [destruct i; split; reflexivity|].
+        (* facts about one child *)
+        assert (Eid : ctrS (stS x) = ctrS x /\ stS (stS x) = stS x).
+        { destruct (is_V x) eqn:V.
+          - destruct x as [tok pad np [|] ed vl|t|t|t|up o ps|cs0|cs0|cs0]; try discriminate;
+              cbn [stS ctrS]; [|split; reflexivity].
+            rewrite format_NV. unfold fmt_V. cbn [snd fst stS ctrS].
+            rewrite format_NV. unfold fmt_V. cbn [snd fst].
+            rewrite fmt_leaf_after, vlen_after_idem. split; reflexivity.
+          - assert (V' : is_V (snd (format x)) = false) by (rewrite is_V_format; exact V).
+            rewrite (stS_nonV x V). rewrite (ctrS_nonV _ V'), (stS_nonV _ V'), (ctrS_nonV x V).
+            rewrite format_format. split; reflexivity. }
+        destruct Eid as [Eid1 Eid2].
+        destruct i as [|k].
+        - cbn [map upd_nth cat].
+          assert (Etail : cat (map ctrS (map stS rest)) = cat (map ctrS rest) /\ map stS (map stS rest) = map stS rest).
+          { clear - Hr. induction Hr as [|y r2 Hy Hr2 IH2]; [split; reflexivity|].
+            destruct IH2 as [I1 I2]. cbn [map cat]. rewrite I1, I2.
+            destruct (is_V y) eqn:V.
+            - destruct y as [tok pad np [|] ed vl|t|t|t|up o ps|cs0|cs0|cs0]; try discriminate;
+                cbn [stS ctrS]; [|split; reflexivity].
+              rewrite format_NV. unfold fmt_V. cbn [snd fst stS ctrS].
+              rewrite format_NV. unfold fmt_V. cbn [snd fst].
+              rewrite fmt_leaf_after, vlen_after_idem. split; reflexivity.
+            - assert (V' : is_V (snd (format y)) = false) by (rewrite is_V_format; exact V).
+              rewrite (stS_nonV y V). rewrite (ctrS_nonV _ V'), (stS_nonV _ V'), (ctrS_nonV y V).
+              rewrite format_format. split; reflexivity. }
+          destruct Etail as [T1 T2]. rewrite T1, T2.
+          assert (Ex : ctrS (set_leaf p r (stS x)) = ctrS (set_leaf p r x)
+                       /\ stS (set_leaf p r (stS x)) = stS (set_leaf p r x)).
+          { destruct (is_V x) eqn:V.
+            - destruct x as [tok pad np hv ed vl|t|t|t|up o ps|cs0|cs0|cs0]; try discriminate.
+              destruct p as [|j p].
+              + rewrite !set_leaf_nil. apply leafS_commute.
+              + rewrite (set_leaf_V_cons j p r (NV tok pad np hv ed vl) eq_refl).
+                rewrite (set_leaf_V_cons j p r (stS (NV tok pad np hv ed vl))).
+                * split; [exact Eid1|exact Eid2].
+                * destruct hv; reflexivity.
+            - assert (V1 : is_V (set_leaf p r (snd (format x))) = false)
+                by (rewrite is_V_set_leaf, is_V_format; exact V).
+              assert (V2 : is_V (set_leaf p r x) = false) by (rewrite is_V_set_leaf; exact V).
+              rewrite (stS_nonV x V), (ctrS_nonV _ V1), (stS_nonV _ V1), (ctrS_nonV _ V2), (stS_nonV _ V2).
+              rewrite Hx. split; reflexivity. }
+          destruct Ex as [Ex1 Ex2]. rewrite Ex1, Ex2. split; reflexivity.
+        - cbn [map upd_nth cat]. destruct (IHl k) as [I1 I2]. rewrite I1, I2, Eid1, Eid2. split; reflexivity. }
+      destruct E as [E1 E2]. rewrite E1, E2. reflexivity.
+  - (* NL *)
+    destruct p as [|i p].
+    + rewrite !set_leaf_nil.
+      assert (V : is_V (snd (format (NL cs))) = false) by (rewrite is_V_format; reflexivity).
+      rewrite (set_value_nonV _ r V), (set_value_nonV (NL cs) r eq_refl). apply format_format.
+    + rewrite format_NL. cbn [snd]. rewrite !set_leaf_NL, !format_NL.
+      assert (E : txtL (upd_nth (set_leaf p r) (treL cs) i) = txtL (upd_nth (set_leaf p r) cs i)
+                  /\ treL (upd_nth (set_leaf p r) (treL cs) i) = treL (upd_nth (set_leaf p r) cs i)).
+      { revert i. induction H as [|x rest Hx Hr IHl]; intros i; [destruct i; split; reflexivity|].
+        (* one child, observed: its contribution and state do not change when it is formatted again *)
+        assert (Eid : forall rest', same_rest rest rest' ->
+                      ctrL (stL x rest) rest' = ctrL x rest /\ stL (stL x rest) rest' = stL x rest).
+        { intros rest' SR.
+          rewrite <- (ctrL_same_rest (stL x rest) _ _ SR), <- (stL_same_rest (stL x rest) _ _ SR).
+          destruct (is_V x) eqn:V; [|destruct (is_K x) eqn:K].
+          - destruct x as [tok pad np hv ed vl|t|t|t|up o ps|cs0|cs0|cs0]; try discriminate.
+            cbn [stL ctrL].
+            rewrite (padfix_pad_idem pad np (hd_error rest) (hd_error rest)).
+            + rewrite fmt_leaf_after, vlen_after_idem. split; reflexivity.
+            + destruct (hd_error rest); simpl; [reflexivity|exact I].
+          - destruct x; try discriminate. cbn [stL ctrL]. split; reflexivity.
+          - assert (V' : is_V (snd (format x)) = false) by (rewrite is_V_format; exact V).
+            assert (K' : is_K (snd (format x)) = false) by (rewrite is_K_format; exact K).
+            rewrite (stL_other x rest V K), (ctrL_other _ rest V' K'), (stL_other _ rest V' K'),
+              (ctrL_other x rest V K), format_format.
+            split; reflexivity. }
+        destruct i as [|k].
+        - cbn [upd_nth txtL treL].
+          assert (Etail : txtL (treL rest) = txtL rest /\ treL (treL rest) = treL rest).
+          { pose proof (format_format (NL rest)) as FF. rewrite format_NL in FF. cbn [snd] in FF.
+            rewrite format_NL in FF. split; [exact (f_equal fst FF)|].
+            pose proof (f_equal snd FF) as G. cbn [snd] in G. injection G as G. exact G. }
+          destruct Etail as [T1 T2]. rewrite T1, T2.
+          pose proof (same_rest_treL rest) as SR.
+          rewrite <- (ctrL_same_rest (set_leaf p r (stL x rest)) _ _ SR),
+                  <- (stL_same_rest (set_leaf p r (stL x rest)) _ _ SR).
+          assert (Ex : ctrL (set_leaf p r (stL x rest)) rest = ctrL (set_leaf p r x) rest
+                       /\ stL (set_leaf p r (stL x rest)) rest = stL (set_leaf p r x) rest).
+          { destruct (is_V x) eqn:V; [|destruct (is_K x) eqn:K].
+            - destruct x as [tok pad np hv ed vl|t|t|t|up o ps|cs0|cs0|cs0]; try discriminate.
+              destruct p as [|j p].
+              + rewrite !set_leaf_nil. apply leafL_commute.
+              + rewrite (set_leaf_V_cons j p r (NV tok pad np hv ed vl) eq_refl).
+                rewrite (set_leaf_V_cons j p r (stL (NV tok pad np hv ed vl) rest)) by reflexivity.
+                apply Eid. apply same_rest_refl.
+            - rewrite (set_leaf_K p r x K).
+              rewrite (set_leaf_K p r (stL x rest)) by (rewrite stL_is_K; exact K).
+              apply Eid. apply same_rest_refl.
+            - assert (V1 : is_V (set_leaf p r (snd (format x))) = false)
+                by (rewrite is_V_set_leaf, is_V_format; exact V).
+              assert (K1 : is_K (set_leaf p r (snd (format x))) = false)
+                by (rewrite is_K_set_leaf, is_K_format; exact K).
+              assert (V2 : is_V (set_leaf p r x) = false) by (rewrite is_V_set_leaf; exact V).
+              assert (K2 : is_K (set_leaf p r x) = false) by (rewrite is_K_set_leaf; exact K).
+              rewrite (stL_other x rest V K), (ctrL_other _ rest V1 K1), (stL_other _ rest V1 K1),
+                (ctrL_other _ rest V2 K2), (stL_other _ rest V2 K2).
+              rewrite Hx. split; reflexivity. }
+          destruct Ex as [Ex1 Ex2]. rewrite Ex1, Ex2. split; reflexivity.
+        - cbn [upd_nth txtL treL]. destruct (IHl k) as [I1 I2]. rewrite I1, I2.
+          assert (SR1 : same_rest rest (upd_nth (set_leaf p r) (treL rest) k)).
+          { destruct (same_rest_treL rest) as [A1 A2].
+            destruct (same_rest_upd (set_leaf p r) (treL rest) k (is_P_set_leaf p r)) as [B1 B2].
+            split; [|congruence].
+            destruct (hd_error rest), (hd_error (treL rest)), (hd_error (upd_nth (set_leaf p r) (treL rest) k));
+              simpl in *; try contradiction; try exact I; congruence. }
+          destruct (Eid _ SR1) as [Eid1 Eid2]. rewrite Eid1, Eid2.
+          pose proof (same_rest_upd (set_leaf p r) rest k (is_P_set_leaf p r)) as SR2.
+          rewrite <- (ctrL_same_rest x _ _ SR2), <- (stL_same_rest x _ _ SR2). split; reflexivity. }
+      destruct E as [E1 E2]. rewrite E1, E2. reflexivity.
+  - (* NC *)
+    destruct p as [|i p].
+    + rewrite !set_leaf_nil.
+      assert (V : is_V (snd (format (NC cs))) = false) by (rewrite is_V_format; reflexivity).
+      rewrite (set_value_nonV _ r V), (set_value_nonV (NC cs) r eq_refl). apply format_format.
+    + rewrite format_NC. cbn [snd]. rewrite !set_leaf_NC, !format_NC.
+      assert (E : map format (upd_nth (set_leaf p r) (map (fun x => snd (format x)) cs) i)
+                  = map format (upd_nth (set_leaf p r) cs i)).
+      { revert i. induction H as [|x rest Hx Hr IHl]; intros i; [destruct i; reflexivity|].
+        destruct i as [|k]; cbn [map upd_nth].
+        - rewrite Hx. f_equal.
+          clear. induction rest as [|y r2 IH]; [reflexivity|]. cbn [map]. rewrite format_format, IH. reflexivity.
+        - rewrite format_format, IHl. reflexivity. }
+      assert (E1 : forall l1 l2, map format l1 = map format l2 ->
+                   cat (map (fun x => fst (format x)) l1) = cat (map (fun x => fst (format x)) l2)
+                   /\ map (fun x => snd (format x)) l1 = map (fun x => snd (format x)) l2).
+      { induction l1 as [|a l1 IH]; intros [|b l2] Hm; try discriminate; [split; reflexivity|].
+        cbn [map] in Hm. inversion Hm as [[Ha Hl]]. destruct (IH l2 Hl) as [I1 I2].
+        cbn [map cat]. rewrite Ha, I1, I2. split; reflexivity. }
+      destruct (E1 _ _ E) as [F1 F2]. rewrite F1, F2. reflexivity.
+Qed.
+
+Theorem observe_commutes : forall n p r,
+  fst (format (set_leaf p r (snd (format n)))) = fst (format (set_leaf p r n)).
+Proof. intros. rewrite observe_commutes_pair. reflexivity. Qed.
+
+(* a whole program of edits with an observation after every edit ends in the same text as without *)
+Fixpoint apply_edits_observed (es : list (list nat * string)) (n : node) : node :=
+  match es with
+  | [] => n
+  | e :: r => apply_edits_observed r (snd (format (set_leaf (fst e) (snd e) n)))
+  end.
+
+Lemma format_congr_set_leaf : forall a b, format a = format b ->
+  forall p r, format (set_leaf p r (snd (format a))) = format (set_leaf p r (snd (format b))).
+Proof. intros a b H p r. rewrite H. reflexivity. Qed.
+
+Theorem observed_program_same_text : forall es n,
+  format (apply_edits_observed es (snd (format n))) = format (snd (format (apply_edits es n))).
+Proof.
+  induction es as [|e es IH]; intros n.
+  - reflexivity.
+  - cbn [apply_edits_observed]. rewrite apply_edits_cons.
+    rewrite <- (IH (set_leaf (fst e) (snd e) n)).
+    (* both trees are observations of trees with the same format *)
+    assert (G : forall es a b, format a = format b ->
+                format (apply_edits_observed es (snd (format a))) = format (apply_edits_observed es (snd (format b)))).
+    { clear. induction es as [|e es IH]; intros a b H; [cbn; rewrite !format_format; exact H|].
+      cbn [apply_edits_observed]. apply IH. rewrite !observe_commutes_pair.
+      (* format (set_leaf p r a) = format (set_leaf p r b) follows from observing both *)
+      rewrite <- (observe_commutes_pair a), <- (observe_commutes_pair b), H. reflexivity. }
+    apply G. apply observe_commutes_pair.
+Qed.
+
+Corollary observed_program_text : forall es n,
+  fst (format (apply_edits_observed es (snd (format n)))) = fst (format (apply_edits es n)).
+Proof. intros. rewrite observed_program_same_text, format_format. reflexivity. Qed.
+
+(* ------------------------------------------------------------------ *)
+(* 8: a problem as a list of cards: cards that no edit names are written verbatim, in the same order *)
+
+Lemma edit_card_length : forall cards k p r, List.length (edit_card cards k p r) = List.length cards.
+Proof. induction cards as [|c rest IH]; intros [|k] p r; simpl; try reflexivity. rewrite IH. reflexivity. Qed.
+
+Lemma edit_card_other : forall cards k j p r, k <> j -> nth_error (edit_card cards k p r) j = nth_error cards j.
+Proof.
+  induction cards as [|c rest IH]; intros [|k] [|j] p r H; simpl; try reflexivity.
+  - congruence.
+  - apply IH. congruence.
+Qed.
+
+Lemma edit_card_same : forall cards k p r c,
+  nth_error cards k = Some c -> nth_error (edit_card cards k p r) k = Some (set_leaf p r c).
+Proof.
+  induction cards as [|x rest IH]; intros [|k] p r c H; simpl in *; try discriminate.
+  - inversion H. reflexivity.
+  - apply IH. exact H.
+Qed.
+
+Lemma apply_card_edits_cons : forall e es cards,
+  apply_card_edits (e :: es) cards = apply_card_edits es (edit_card cards (fst (fst e)) (snd (fst e)) (snd e)).
+Proof. reflexivity. Qed.
+
+Theorem cards_count_kept : forall es cards, List.length (apply_card_edits es cards) = List.length cards.
+Proof.
+  induction es as [|e es IH]; intros cards; [reflexivity|].
+  rewrite apply_card_edits_cons, IH. apply edit_card_length.
+Qed.
+
+Theorem untouched_cards_kept : forall es cards j,
+  (forall e, In e es -> fst (fst e) <> j) ->
+  nth_error (apply_card_edits es cards) j = nth_error cards j.
+Proof.
+  induction es as [|e es IH]; intros cards j H; [reflexivity|].
+  rewrite apply_card_edits_cons, IH.
+  - apply edit_card_other. apply H. left. reflexivity.
+  - intros e' He'. apply H. right. exact He'.
+Qed.
+
+Lemma nth_error_format_all : forall cards j,
+  nth_error (format_all cards) j = option_map (fun c => fst (format c)) (nth_error cards j).
+Proof. intros. unfold format_all. apply nth_error_map. Qed.
+
+(* the text of a card that no edit of the program names is the text of the unedited write *)
+Theorem untouched_cards_verbatim : forall es cards j,
+  (forall e, In e es -> fst (fst e) <> j) ->
+  nth_error (format_all (apply_card_edits es cards)) j = nth_error (format_all cards) j.
+Proof. intros. rewrite !nth_error_format_all, untouched_cards_kept by assumption. reflexivity. Qed.
+
+(* ... and if that card was not edited before either, it is the text that was read *)
+Corollary untouched_cards_as_read : forall es cards j c,
+  (forall e, In e es -> fst (fst e) <> j) ->
+  nth_error cards j = Some c -> unedited c = true -> as_parsed c = true ->
+  nth_error (format_all (apply_card_edits es cards)) j = Some (flatten c).
+Proof.
+  intros es cards j c H Hc Hu Ha.
+  rewrite untouched_cards_verbatim by assumption.
+  rewrite nth_error_format_all, Hc. cbn. rewrite format_unchanged by assumption. reflexivity.
+Qed.
+
+(* ------------------------------------------------------------------ *)
+(* 9: generations.  The parser is not modelled: it is any function that is lossless on the text at hand *)
+
+Definition Lossless_on (P : string -> node) (s : string) : Prop :=
+  flatten (P s) = s /\ unedited (P s) = true /\ as_parsed (P s) = true.
+
+Theorem reread_fixed_point : forall P s, Lossless_on P s -> fst (format (P s)) = s.
+Proof. intros P s (H1 & H2 & H3). rewrite format_unchanged by assumption. exact H1. Qed.
+
+(* whatever tree t was written (edited or not): if the parser reads that text losslessly, writing it again
+   reproduces it, and so does every further generation *)
+Theorem generation_fixed_point : forall P t,
+  let g1 := fst (format t) in
+  Lossless_on P g1 ->
+  let g2 := fst (format (P g1)) in
+  g2 = g1 /\ fst (format (P g2)) = g2.
+Proof.
+  intros P t g1 H g2.
+  assert (E : g2 = g1) by (apply reread_fixed_point; exact H).
+  split; [exact E|]. rewrite E. exact E.
+Qed.
+
+(* ------------------------------------------------------------------ *)
+(* 10: the cell parameter loop: a parameter is never fused with what precedes it *)
+
+Lemma last_char_app_char : forall s a, last_char (s ++ String a "") = Some a.
+Proof.
+  induction s as [|b s IH]; intros a; [reflexivity|].
+  cbn [append last_char]. destruct (s ++ String a "") eqn:E.
+  - destruct s; discriminate.
+  - rewrite <- E. apply IH.
+Qed.
+
+Lemma last_char_app : forall s t, t <> "" -> last_char (s ++ t) = last_char t.
+Proof.
+  induction s as [|b s IH]; intros t Ht; [reflexivity|].
+  cbn [append last_char]. destruct (s ++ t) eqn:E.
+  - destruct s, t; try discriminate. congruence.
+  - rewrite <- E. apply IH. exact Ht.
+Qed.
+
+Lemma ends_ws_app : forall s t, t <> "" -> ends_ws (s ++ t) = ends_ws t.
+Proof. intros. unfold ends_ws. rewrite last_char_app by assumption. reflexivity. Qed.
+
+Lemma ends_ws_cont5 : forall s, ends_ws (s ++ cont5) = true.
+Proof. intros. rewrite ends_ws_app; [reflexivity|discriminate]. Qed.
+
+(* the last line and the whole text end with the same character, unless the text ends with a line break *)
+Lemma last_line_aux_last : forall s cur prev fresh,
+  ends_nl s = false -> s <> "" -> last_char (last_line_aux s cur prev fresh) = last_char s.
+Proof.
+  induction s as [|a s IH]; intros cur prev fresh Hn Hs; [congruence|].
+  cbn [last_line_aux]. destruct s as [|b s'].
+  - (* the last character *)
+    unfold ends_nl in Hn. cbn [last_char] in Hn. rewrite Hn. cbn [last_line_aux last_char].
+    apply last_char_app_char.
+  - assert (Hn' : ends_nl (String b s') = false) by exact Hn.
+    destruct (Nat.eqb (nat_of_ascii a) 10); rewrite IH by (assumption || discriminate); reflexivity.
+Qed.
+
+Lemma ends_nl_ws : forall s, ends_nl s = true -> ends_ws s = true.
+Proof.
+  intros s H. unfold ends_nl, ends_ws in *. destruct (last_char s) as [a|]; [|discriminate].
+  apply Nat.eqb_eq in H. unfold is_ws. rewrite H. reflexivity.
+Qed.
+
+Lemma ends_ws_last_line : forall s, ends_ws (last_line s) = true -> ends_ws s = true.
+Proof.
+  intros s H. destruct (ends_nl s) eqn:N; [apply ends_nl_ws; exact N|].
+  destruct s as [|a s]; [discriminate H|].
+  unfold ends_ws in *. unfold last_line in H. rewrite last_line_aux_last in H by (assumption || discriminate).
+  exact H.
+Qed.
+
+(* cleanup_last_line always leaves white space at the end: the parameter that is appended next starts a new
+   token (C01: nothing is fused with a neighbouring token) *)
+Theorem cleanup_separates : forall ret, ends_ws (cleanup_last_line ret) = true.
+Proof.
+  intros ret. unfold cleanup_last_line.
+  destruct (orb (is_comment_line (last_line ret)) (has_char "$"%char (last_line ret))).
+  - destruct (ends_nl ret); rewrite <- ?append_assoc; apply ends_ws_cont5.
+  - destruct (ends_amp (last_line ret)); [rewrite <- append_assoc; apply ends_ws_cont5|].
+    destruct (ends_ws (last_line ret)) eqn:E; [apply ends_ws_last_line; exact E|].
+    rewrite ends_ws_app; [reflexivity|discriminate].
+Qed.
+
+(* after a comment (a 'c' line or a '$' comment) or a '&' the parameter starts on a continuation line of its own:
+   it can neither become part of the comment nor follow the continuation marker on its line *)
+Theorem cleanup_new_line : forall ret,
+  orb (orb (is_comment_line (last_line ret)) (has_char "$"%char (last_line ret))) (ends_amp (last_line ret)) = true ->
+  exists x, cleanup_last_line ret = x ++ nl ++ cont5.
+Proof.
+  intros ret H. unfold cleanup_last_line.
+  destruct (orb (is_comment_line (last_line ret)) (has_char "$"%char (last_line ret))) eqn:C.
+  - destruct (ends_nl ret) eqn:N; [|exists ret; reflexivity].
+    (* ret = x ++ nl *)
+    assert (G : forall s, ends_nl s = true -> exists x, s = x ++ nl).
+    { clear. induction s as [|a s IH]; intros H; [discriminate|].
+      destruct s as [|b s'].
+      - unfold ends_nl in H. cbn in H. apply Nat.eqb_eq in H. exists "". cbn.
+        rewrite <- (ascii_nat_embedding a), H. reflexivity.
+      - destruct (IH H) as (x & Hx). exists (String a x). cbn. rewrite <- Hx. reflexivity. }
+    destruct (G ret N) as (x & ->). exists x. rewrite append_assoc. reflexivity.
+  - simpl in H. rewrite H. exists ret. reflexivity.
+Qed.
+
+(* ------------------------------------------------------------------ *)
+(* 11: per-particle importances *)
+
+Lemma lookup_set_owner_other : forall o p q i new placed,
+  q <> p -> lookup q (set_owner o p i new placed) = lookup q o.
+Proof.
+  induction o as [|[q0 j] o IH]; intros p q i new placed Hne; [reflexivity|].
+  cbn [set_owner].
+  assert (Eq : (q =? p)%string = false) by (apply String.eqb_neq; exact Hne).
+  destruct (andb (Nat.eqb j i) (negb placed)); destruct (String.eqb p q0) eqn:E0; cbn [app lookup];
+    rewrite ?Eq.
+  - apply String.eqb_eq in E0. subst q0. rewrite Eq. apply IH. exact Hne.
+  - destruct (String.eqb q q0); [reflexivity|apply IH; exact Hne].
+  - apply String.eqb_eq in E0. subst q0. rewrite Eq. apply IH. exact Hne.
+  - destruct (String.eqb q q0); [reflexivity|apply IH; exact Hne].
+Qed.
+
+Lemma lookup_in : forall o q j, lookup q o = Some j -> In (q, j) o.
+Proof.
+  induction o as [|[q0 j0] o IH]; intros q j H; [discriminate|].
+  cbn [lookup] in H. destruct (String.eqb q q0) eqn:E.
+  - apply String.eqb_eq in E. inversion H. subst. left. reflexivity.
+  - right. apply IH. exact H.
+Qed.
+
+Lemma nth_error_set_nth_other : forall (A : Type) (l : list A) i j x, i <> j -> nth_error (set_nth l i x) j = nth_error l j.
+Proof.
+  induction l as [|y l IH]; intros [|i] [|j] x H; simpl; try reflexivity; try congruence.
+  apply IH. congruence.
+Qed.
+
+Lemma nth_error_set_nth_same : forall (A : Type) (l : list A) i x y,
+  nth_error l i = Some y -> nth_error (set_nth l i x) i = Some x.
+Proof.
+  induction l as [|z l IH]; intros [|i] x y H; simpl in *; try discriminate; [reflexivity|].
+  eapply IH. exact H.
+Qed.
+
+Lemma set_nth_length : forall (A : Type) (l : list A) i x, List.length (set_nth l i x) = List.length l.
+Proof. induction l as [|y l IH]; intros [|i] x; simpl; try reflexivity. rewrite IH. reflexivity. Qed.
+
+(* C03: setting the importance of particle p leaves the importance of every other particle q as it was, also when
+   p and q were read from one shared entry 'imp:p,q=x' *)
+Definition owner_in_range (st : imp_state) : Prop :=
+  forall q j, lookup q (owner st) = Some j -> j < List.length (trees st).
+
+Lemma imp_wf_in_range : forall st, imp_wf st -> owner_in_range st.
+Proof.
+  intros st (W1 & _) q j H. destruct (W1 q j H) as (t & Ht & _). apply nth_error_Some. congruence.
+Qed.
+
+Theorem imp_independent : forall st p q v,
+  owner_in_range st -> q <> p -> imp_get (imp_set st p v) q = imp_get st q.
+Proof.
+  intros st p q v Hr Hne. unfold imp_set.
+  destruct (lookup p (owner st)) as [i|] eqn:Lp; [|reflexivity].
+  destruct (nth_error (trees st) i) as [t|] eqn:Ti; [|reflexivity].
+  destruct (shares st p i) eqn:Sh; unfold imp_get; cbn [owner trees].
+  - rewrite (lookup_set_owner_other _ _ _ _ _ _ Hne).
+    destruct (lookup q (owner st)) as [j|] eqn:Lq; [|reflexivity].
+    destruct (nth_error (trees st) j) as [u|] eqn:Tj.
+    + assert (Hlt : j < List.length (set_nth (trees st) i
+                 {| it_parts := filter (fun q0 => negb (q0 =? p)%string) (it_parts t); it_value := it_value t |})).
+      { rewrite set_nth_length. apply nth_error_Some. congruence. }
+      rewrite nth_error_app1 by exact Hlt.
+      destruct (Nat.eq_dec i j) as [->|N].
+      * rewrite (nth_error_set_nth_same _ _ _ _ _ Ti). rewrite Ti in Tj. inversion Tj. reflexivity.
+      * rewrite (nth_error_set_nth_other _ _ _ _ _ N), Tj. reflexivity.
+    + exfalso. apply nth_error_None in Tj. pose proof (Hr q j Lq). lia.
+  - destruct (lookup q (owner st)) as [j|] eqn:Lq; [|reflexivity].
+    assert (N : i <> j).
+    { intro; subst j. unfold shares in Sh.
+      assert (X : existsb (fun qi => andb (negb (fst qi =? p)%string) (Nat.eqb (snd qi) i)) (owner st) = true).
+      { apply existsb_exists. exists (q, i). split; [apply lookup_in; exact Lq|].
+        cbn. rewrite Nat.eqb_refl, andb_true_r. apply negb_true_iff, String.eqb_neq. exact Hne. }
+      congruence. }
+    rewrite (nth_error_set_nth_other _ _ _ _ _ N). reflexivity.
+Qed.
+
+Lemma lookup_set_owner_placed : forall o p i new, lookup p (set_owner o p i new true) = None.
+Proof.
+  induction o as [|[q0 j] o IH]; intros p i new; [reflexivity|].
+  cbn [set_owner]. rewrite andb_false_r. cbn [app orb].
+  destruct (String.eqb p q0) eqn:E; cbn [app lookup]; [apply IH|].
+  rewrite E. apply IH.
+Qed.
+
+Lemma lookup_set_owner_new : forall o p i new,
+  (exists q, In (q, i) o) -> lookup p (set_owner o p i new false) = Some new.
+Proof.
+  induction o as [|[q0 j] o IH]; intros p i new (q & Hq); [destruct Hq|].
+  cbn [set_owner]. cbn [negb]. rewrite andb_true_r.
+  destruct (Nat.eqb j i) eqn:Ej.
+  - cbn [app lookup]. rewrite String.eqb_refl. reflexivity.
+  - cbn [app orb]. destruct Hq as [Hq|Hq].
+    + inversion Hq. subst. rewrite Nat.eqb_refl in Ej. discriminate.
+    + destruct (String.eqb p q0) eqn:E; cbn [app lookup]; rewrite ?E; apply IH; exists q; exact Hq.
+Qed.
+
+(* C03: ... and p itself carries the new value *)
+Theorem imp_set_get : forall st p v i t,
+  lookup p (owner st) = Some i -> nth_error (trees st) i = Some t ->
+  imp_get (imp_set st p v) p = Some v.
+Proof.
+  intros st p v i t Lp Ti. unfold imp_set. rewrite Lp, Ti.
+  destruct (shares st p i); unfold imp_get; cbn [owner trees].
+  - rewrite lookup_set_owner_new by (exists p; apply lookup_in; exact Lp).
+    rewrite nth_error_app2 by (rewrite set_nth_length; lia).
+    rewrite set_nth_length, Nat.sub_diag. reflexivity.
+  - rewrite Lp, (nth_error_set_nth_same _ _ _ _ _ Ti). reflexivity.
+Qed.
+
+(* the code before 11534b6 wrote into the shared tree: refuted on 'imp:n,p=1' *)
+Definition ex_imp : imp_state :=
+  {| trees := [ {| it_parts := ["n"; "p"]; it_value := "1" |}; {| it_parts := ["e"]; it_value := "0" |} ];
+     owner := [("n", 0); ("p", 0); ("e", 1)] |}.
+
+Lemma ex_imp_wf : imp_wf ex_imp.
+Proof.
+  unfold imp_wf, ex_imp; cbn [trees owner]. split; [|split].
+  - intros p i H. cbn in H.
+    destruct (String.eqb p "n") eqn:E1; [inversion H; subst; apply String.eqb_eq in E1; subst; eexists; split; reflexivity|].
+    destruct (String.eqb p "p") eqn:E2; [inversion H; subst; apply String.eqb_eq in E2; subst; eexists; split; reflexivity|].
+    destruct (String.eqb p "e") eqn:E3; [inversion H; subst; apply String.eqb_eq in E3; subst; eexists; split; reflexivity|].
+    discriminate.
+  - intros p i j t u Hi Hj Ht Hu.
+    destruct i as [|[|i]]; destruct j as [|[|j]]; cbn in Hi, Hj; try reflexivity;
+      try (destruct i; discriminate); try (destruct j; discriminate);
+      inversion Hi; inversion Hj; subst; cbn in Ht, Hu;
+      repeat match goal with
+             | H : (if String.eqb ?a ?b then _ else _) = true |- _ => destruct (String.eqb a b) eqn:?E
+             | H : orb _ _ = true |- _ => apply orb_true_iff in H; destruct H
+             | H : String.eqb _ _ = true |- _ => apply String.eqb_eq in H; subst
+             end; try discriminate.
+  - intros p i t Hi Ht.
+    destruct i as [|[|i]]; cbn in Hi; try (destruct i; discriminate); inversion Hi; subst; cbn in Ht;
+      repeat match goal with
+             | H : orb _ _ = true |- _ => apply orb_true_iff in H; destruct H
+             | H : String.eqb _ _ = true |- _ => apply String.eqb_eq in H; subst
+             end; try discriminate; reflexivity.
+Qed.
+
+Theorem imp_old_shared_refuted :
+  exists st p q v, q <> p /\ imp_wf st /\ imp_get (imp_set_old st p v) q <> imp_get st q.
+Proof.
+  exists ex_imp, "n", "p", "2". split; [discriminate|]. split; [exact ex_imp_wf|].
+  vm_compute. discriminate.
+Qed.
+
+Example ex_imp_set :
+  imp_get (imp_set ex_imp "n" "2") "p" = Some "1" /\ imp_get (imp_set ex_imp "n" "2") "n" = Some "2"
+  /\ map it_parts (imp_written (imp_set ex_imp "n" "2")) = [["n"]; ["p"]; ["e"]]
+  /\ map it_value (imp_written (imp_set ex_imp "n" "2")) = ["2"; "1"; "0"].
+Proof. repeat split; vm_compute; reflexivity. Qed.
+
+(* ------------------------------------------------------------------ *)
+(* 12: the writer's block structure *)
 
 Definition nonblank_all (ls : list string) : Prop :=
   forallb (fun l => negb (blank_line l)) ls = true.
@@ -624,7 +1436,7 @@ Proof.
   reflexivity.
 Qed.
 
-(* 8: the old order (child cards after the data block's terminating blank line) was wrong *)
+(* the old order (child cards after the data block's terminating blank line) was wrong *)
 Theorem writer_children_after_terminator_refuted :
   exists title cells surfaces data children,
     nonblank_all (List.concat cells) /\ nonblank_all (List.concat surfaces) /\
@@ -640,44 +1452,90 @@ Proof.
 Qed.
 
 (* ------------------------------------------------------------------ *)
-(* 9: non-vacuity *)
+(* 13: non-vacuity *)
 
-(* an as-parsed, unedited tree: a SyntaxNode with a skipped value (value None, empty text), a
-   ListNode whose first value needs no repair because a padding node follows, and a last value *)
+(* an as-parsed, unedited tree: a SyntaxNode with a skipped value (value None, empty text), a classifier with
+   a ParticleNode, a ListNode whose first value needs no repair because a padding node follows, a shortcut
+   followed by white space, a comment *)
 Definition ex_tree : node :=
-  NS [ NV "10" (Some " ") false true None;
-       NV "" None false false None;
-       NL [ NV "1" None false true None; NP " "; NV "2" (Some " ") false true None;
-            NV "3" None false true None ];
-       NC [ NP " $ c"; NO "1 2r" ] ].
+  NS [ NV "10" (Some [PS " "]) false true None None;
+       NV "" None false false None None;
+       NC [ NV "imp" None true true None None; NT false ["n"; "p"] ["n"; "p"]; NP [PS "="] ];
+       NL [ NV "1" None false true None None; NP [PS " "]; NV "2.50" (Some [PS "  "]) false true None None;
+            NK "3 2r "; NV "3" None false true None None ];
+       NC [ NP [PS " "; PC "$ c"; PS nl] ] ].
 
 Example ex_tree_hyps : unedited ex_tree = true /\ as_parsed ex_tree = true.
 Proof. split; vm_compute; reflexivity. Qed.
 
-Example ex_tree_format : format ex_tree = (flatten ex_tree, ex_tree) /\ flatten ex_tree = "10 1 2 3 $ c1 2r".
+Example ex_tree_format :
+  format ex_tree = (flatten ex_tree, ex_tree) /\ flatten ex_tree = "10 imp:n,p=1 2.50  3 2r 3 $ c" ++ nl.
 Proof. split; vm_compute; reflexivity. Qed.
 
 (* a ListNode built by hand (values without padding): format repairs the padding, i.e. changes the
    tree and writes something else than [flatten]; formatting again gives the same text and tree *)
 Definition ex_list : node :=
-  NL [ NV "1" None false true None; NV "2" None false true None; NV "3" None true true None;
-       NV "4" None false true (Some "4.5"); NV "5" None false true None ].
+  NL [ NV "1" None false true None None; NV "2" None false true None None; NV "3" None true true None None;
+       NV "4" None false true (Some "4.5") None; NK "5 2r"; NV "6" None false true None None;
+       NT true ["p"; "n"] ["e"; "n"] ].
 
 Example ex_list_not_as_parsed : as_parsed ex_list = false.
 Proof. vm_compute. reflexivity. Qed.
 
 Example ex_list_format :
-  fst (format ex_list) = "1 2 34.55" /\ flatten ex_list = "12345" /\
+  fst (format ex_list) = "1 2 34.5 5 2r 6 :N,E" /\ flatten ex_list = "12345 2r6:P,N" /\
   snd (format ex_list) <> ex_list /\
-  fst (format (snd (format ex_list))) = "1 2 34.55" /\
+  fst (format (snd (format ex_list))) = "1 2 34.5 5 2r 6 :N,E" /\
   snd (format (snd (format ex_list))) = snd (format ex_list).
 Proof.
   split; [vm_compute; reflexivity|]. split; [vm_compute; reflexivity|].
   split; [vm_compute; discriminate|]. split; vm_compute; reflexivity.
 Qed.
 
-(* an edit inside a SyntaxNode: the skipped value gets a value; the rest is byte-identical *)
+(* edits: the skipped value gets a value (and a blank), a ListNode value keeps its column when the new text is
+   not longer than the old field, and gets a blank when it is *)
 Example ex_edit :
-  fst (format (set_leaf [1] "7 " ex_tree)) = "10 7 1 2 3 $ c1 2r" /\
-  fst (format (set_leaf [2; 0] "1.5" ex_tree)) = "10 1.5 2 3 $ c1 2r".
-Proof. split; vm_compute; reflexivity. Qed.
+  fst (format (set_leaf [1] "7" ex_tree)) = "10 7 imp:n,p=1 2.50  3 2r 3 $ c" ++ nl /\
+  fst (format (set_leaf [3; 2] "9" ex_tree)) = "10 imp:n,p=1 9     3 2r 3 $ c" ++ nl /\
+  fst (format (set_leaf [3; 2] "2.123456" ex_tree)) = "10 imp:n,p=1 2.123456 3 2r 3 $ c" ++ nl.
+Proof. repeat split; vm_compute; reflexivity. Qed.
+
+(* an observation between two edits: same text *)
+Example ex_observe :
+  fst (format (set_leaf [3; 0] "1.5" (snd (format (set_leaf [3; 2] "9" ex_tree)))))
+  = fst (format (set_leaf [3; 0] "1.5" (set_leaf [3; 2] "9" ex_tree))).
+Proof. vm_compute. reflexivity. Qed.
+
+(* a problem of three cards, the second one edited twice *)
+Definition ex_cards : list node := [ex_tree; ex_tree; NS [NV "nps" (Some [PS " "]) false true None None; NO "10"]].
+Example ex_cards_edit :
+  nth_error (format_all (apply_card_edits [(1, [3; 2], "9"); (1, [3; 2], "8")] ex_cards)) 0 = Some (flatten ex_tree) /\
+  nth_error (format_all (apply_card_edits [(1, [3; 2], "9"); (1, [3; 2], "8")] ex_cards)) 2 = Some "nps 10" /\
+  nth_error (format_all (apply_card_edits [(1, [3; 2], "9"); (1, [3; 2], "8")] ex_cards)) 1
+    = Some ("10 imp:n,p=1 8     3 2r 3 $ c" ++ nl).
+Proof. repeat split; vm_compute; reflexivity. Qed.
+
+(* a parser that is lossless on one text: the constant function *)
+Example ex_lossless : Lossless_on (fun _ => ex_tree) (flatten ex_tree).
+Proof. repeat split; vm_compute; reflexivity. Qed.
+
+(* the cell parameter loop after a '$' comment, after a '&' and after a plain token *)
+Example ex_cleanup :
+  cleanup_last_line ("1 0 -1 $ c" ++ nl) = "1 0 -1 $ c" ++ nl ++ cont5 /\
+  cleanup_last_line "1 0 -1 imp:n=1 &" = "1 0 -1 imp:n=1 &" ++ nl ++ cont5 /\
+  cleanup_last_line "1 0 -1" = "1 0 -1 " /\
+  cell_text [CNode (NO "1 0 -1 "); CMod "imp:n=1 &"; CParam (NO "tmp=1 &")] = "1 0 -1 imp:n=1 &" ++ nl ++ cont5 ++ "tmp=1 ".
+Proof. repeat split; vm_compute; reflexivity. Qed.
+
+(* every card of an unedited problem is written as it was read, in the same order *)
+Theorem all_cards_as_read : forall cards,
+  forallb (fun c => andb (unedited c) (as_parsed c)) cards = true -> format_all cards = map flatten cards.
+Proof.
+  induction cards as [|c rest IH]; intros H; [reflexivity|].
+  cbn [forallb] in H. apply andb_true_iff in H. destruct H as [Hc Hr].
+  apply andb_true_iff in Hc. destruct Hc as [Hu Ha].
+  unfold format_all in *. cbn [map]. rewrite (IH Hr), format_unchanged by assumption. reflexivity.
+Qed.
+
+Example ex_all_cards : forallb (fun c => andb (unedited c) (as_parsed c)) ex_cards = true.
+Proof. vm_compute. reflexivity. Qed.
